@@ -54,6 +54,23 @@ DateTimeNew == {[ty |-> "datetime", v |-> DT(Date(y, m, d), TimeRec(h, mi, s, ms
                   y \in {2020, -271821, 275760, I32Max}, m \in {2, 4, 9, 13, 0}, d \in {19, 13, 30, 0}, h \in {0, 23, 24}, mi \in {59, 60}, s \in {0, 255},
                   ms \in {0, 1000}, ns \in {0, 1, 65535}}
 
+(* ---- thorough tier: more values per field, more receivers ---- *)
+TYears == DYears \cup {0, -1, 1972, 5879611, -5879611, -271822}
+TMonths == {NA, 1, 2, 4, 6, 9, 11, 12, 0, 13, 14, 99, 255}
+TCodes == DCodes \cup {"M01", "M06", "M11", "M99", "M12L"}
+TDays == {NA, 1, 13, 19, 28, 29, 30, 31, 0, 32, 255}
+TDatePartials == {MkDateP(y, m, mc, d) : y \in TYears, m \in TMonths, mc \in TCodes, d \in TDays}
+TDateReceivers == DateReceivers \cup {[ty |-> "date", v |-> Date(2023, 3, 31)], [ty |-> "date", v |-> Date(1900, 2, 28)], [ty |-> "date", v |-> Date(2000, 2, 29)],
+                                      [ty |-> "date", v |-> Date(0, 1, 1)], [ty |-> "date", v |-> Date(-1, 12, 31)]}
+TDateNew == {[ty |-> "date", v |-> Date(y, m, d)] : y \in TYears \ {NA}, m \in TMonths \ {NA}, d \in TDays \ {NA}}
+TYmPartials == {MkDateP(y, m, mc, NA) : y \in TYears, m \in TMonths \cup {3, 5, 10}, mc \in TCodes \cup {"M03", "M09", "M10"}}
+TYmReceivers == YmReceivers \cup {[ty |-> "yearmonth", v |-> YM(-271821, 5, 1)], [ty |-> "yearmonth", v |-> YM(275760, 8, 1)], [ty |-> "yearmonth", v |-> YM(0, 1, 1)]}
+TTimePartials == {MkTimeP(h, mi, s, ms, us, ns) : h \in {NA, 0, 23, 24, 255}, mi \in {NA, 0, 59, 60, 255}, s \in {NA, 0, 59, 60, 255},
+                                                  ms \in {NA, 0, 999, 1000, 65535}, us \in {NA, 0, 999, 1000, 65535}, ns \in {NA, 0, 999, 1000, 65535}}
+TDateP(ty) == IF ty = "date" THEN TDatePartials ELSE {}
+TYmP(ty) == IF ty = "yearmonth" THEN TYmPartials ELSE {}
+TTimeP(ty) == IF ty = "time" THEN TTimePartials ELSE {}
+
 NoP(ty) == {}
 DateP(ty) == IF ty = "date" THEN DatePartials ELSE {}
 YmP(ty) == IF ty = "yearmonth" THEN YmPartials ELSE {}
